@@ -266,7 +266,8 @@ class FormulaManager(object):
         if base.is_constant() and \
            not (base.is_zero() and exponent.constant_value() < 0):
             # (0 to a negative power is a division by zero: not folded)
-            val = cast(Union[int, fractions.Fraction], base.constant_value()) ** cast(Union[int, fractions.Fraction], exponent.constant_value())
+            # (exact also for an integer base with a negative exponent)
+            val = fractions.Fraction(cast(Union[int, fractions.Fraction], base.constant_value())) ** cast(Union[int, fractions.Fraction], exponent.constant_value())
             return self.Real(val)
         return self.create_node(node_type=op.POW, args=(base, exponent))
 
